@@ -113,7 +113,8 @@ class PGen:
                                 ["z", ["IfThenElse", ["bin", "==", ["this", "c"], 1], B, ["Bytes", 2]]]]],
             lambda: ["FocusedSeq", "v", [["k", ["Default", B, ["bin", "&", E(), 1]]], ["v", ["Array", ["bin", "+", ["this", "k"], 1], B]], ["t", ["Rebuild", B, ["fn", "len", ["this", "v"]]]]]],
             lambda: ["Hex", X()], lambda: ["Enum", B, [["a", 1], ["b", 2]]], lambda: ["FlagsEnum", B, [["r", 1], ["w", 2], ["rw", 3]]], lambda: ["Mapping", B, [["zero", 0], ["one", 1], ["two", 2], ["three", 3], [tag(b"k"), 200], [None, 254]]], lambda: ["Enum", ["name", "Int16ub"], [["x", 0], ["y", 300]]],
-            lambda: ["Pointer", E(), B], lambda: ["Peek", ["name", "Int16ub"]], lambda: ["name", "Tell"], lambda: ["Union", 0, [["a", ["name", "Int16ub"]], ["b", ["Bytes", 2]]]],
+            lambda: ["Pointer", E(), B], lambda: ["Peek", ["name", "Int16ub"]], lambda: ["Peek", r.choice([["Const", tag(bytes([r.choice([0, 1, 2])])), None], ["OneOf", B, [0, 1]],
+                                                                                 ["Struct", [["a", B], [None, ["Check", ["bin", "<", ["this", "a"], 2]]], ["b", ["name", "Int16ub"]]]]])], lambda: ["name", "Tell"], lambda: ["Union", 0, [["a", ["name", "Int16ub"]], ["b", ["Bytes", 2]]]],
             lambda: ["Union", r.choice([None, 0, 1, "b"]), [[None, ["Const", tag(bytes([r.choice([0, 1, 2])])), None]], ["b", ["name", "Int16ub"]], ["c", ["Bytes", 3]]]],
             lambda: ["Union", "c", [["a", B], [None, ["Padding", 2]], ["c", ["name", "Int24ub"]], ["d", ["name", "Int16ul"]]]],
             lambda: ["NamedTuple", "pt", "x y", ["Array", 2, B]], lambda: ["Const", tag(bytes([r.choice([0, 1, 2])])), None], lambda: ["Const", r.choice([0, 1, 2]), B], lambda: ["Padded", 3, B],
@@ -264,7 +265,7 @@ def run_program(ctx, prog, kw, ins, sample=False):
         if ri[0] != "ok":
             ctx.count("inputs_interpreter_rejects")
             continue
-        if peek_failed(prog, ri[1]):
+        if peek_failed(prog, ri[1], d, data, kw):
             # look-ahead over truncated data: documented as outside what generated code handles (it omits the length checks)
             ctx.count("inputs_skipped_lookahead_failed")
             continue
@@ -320,11 +321,17 @@ def run_program(ctx, prog, kw, ins, sample=False):
         ctx.sample({"program": prog, "kw": kw, "accepted_inputs": accepted, "natively_emitted_fragments": native, "linked_fallbacks": linked})
 
 
-def peek_failed(prog, value):
-    for nm, m in prog[1]:
-        if m[0] == "Peek" and nm in value and value[nm] is None:
-            return True
-    return False
+def peek_failed(prog, value, d=None, data=None, kw=None):
+    """a look-ahead that found too little data (the documented exclusion: generated code omits the length checks).  A look-ahead
+    that read enough and rejected it (constant / validator mismatch) is compared like everything else: whether a None came from
+    running out of data is decided by parsing the same input with 16 more bytes appended."""
+    none = [nm for nm, m in prog[1] if m[0] == "Peek" and nm in value and value[nm] is None]
+    if not none:
+        return False
+    if any(m[0] == "Peek" and m[1] == ["name", "Int16ub"] for nm, m in prog[1] if nm in none) or d is None:
+        return True
+    longer = outcome(lambda: d.parse(data + b"\x01" * 16, **kw))
+    return longer[0] != "ok" or any(longer[1].get(nm) is not None for nm in none)
 
 
 DERIVED = ("Rebuild", "Default", "Const", "Computed")
